@@ -97,6 +97,21 @@ CHECKS.update({
         design='8 C08', note=MULTI_NOTE, technique='TLC model checking of SshMulti.tla + fault-archetype replay + trace validation (TraceMulti.tla)'),
 })
 
+CHECKS.update({
+    'C05': dict(category='model_checking',
+        text=("SshPolicy.tla defines Create (what --make-policy must produce), Load (identity: the contract of the file format) and Errors (the matching rule); TLC checks "
+              "RoundTrip on every peer and Drift on every single-attribute perturbation and supplies the expected verdict and mismatched fields. Replay through the CLI: "
+              "-M against a fake server built from the peer, then -P with the written file against the same and every perturbed server, text and JSON; peers include every "
+              "gss-* spelling and names over the RFC 4251 character set; all built-in policies are audited against a peer configured exactly as they list."),
+        design='8 C05', note=RATING_NOTE, technique='TLC-checked policy rule as oracle; two-step CLI replay (-M then -P) over peers x perturbations'),
+    'C06': dict(category='model_checking',
+        text=("SshPolicy!Errors transcribes the documented matching rules; TLC enumerates per field every (policy, peer) pair of the small universe (lists, optional host "
+              "keys, strict marker, size maps, CA type/size precedence, flags), checks ShrinkKeepsPass, GrowKeepsPass, ExactImpliesSubset, LargerIsWeaker, UnspecifiedNeverFails "
+              "on each and emits the expected mismatched fields; all pairs are replayed in-process against Policy.evaluate (fresh object each), a sample through -P in text and "
+              "JSON including the exit status."),
+        design='8 C06', note='TLC; policies are rendered as policy-file text by the harness; in-process peers are SSH2_Kex objects with recorded host keys/moduli', technique='exhaustive per-field TLC enumeration of (policy, peer) pairs replayed into Policy.evaluate and the CLI'),
+})
+
 NOT_BUILT = {}
 
 
